@@ -187,7 +187,7 @@ PROPS = {
         "assumptions": ["key strings of different slots differ (hex ids/pubkeys)"],
     },
     "C16": {
-        "lean_modules": ["MocProps.C16"], "theorem_files": ["MocProps/C16.lean"],
+        "lean_modules": ["MocProps.C16", "MocProps.C16Restore"], "theorem_files": ["MocProps/C16.lean", "MocProps/C16Restore.lean"],
         "gen_groups": ["Handlers", "Cache", "Consts"], "stateful": True,
         "n_quick": 15000, "n_thorough": 150000, "thorough_seeds": 3,
         "rule": "client message sequences (5-30 messages, all five types; EVENTs incl. duplicates, new versions at -1/0/+1 s, deletion requests, ephemeral; REQs aimed at the content) "
@@ -196,8 +196,9 @@ PROPS = {
         "level_text": "Full for the cache handler's request/reply logic on the model: replies are grouped per request in request order (serve_append, serve_length), an EVENT gets exactly one "
                       "OK with its id, accepting iff the store reports it as new, otherwise rejecting with the duplicate: prefix (event_reply), a REQ gets the stored matches labelled with "
                       "its subscription id then exactly one EOSE, COUNT one COUNT, CLOSE/AUTH nothing (other_replies, reply_shape); reply constructors are pinned against regenerated source "
-                      "(handlers_source_pinned). Partial: Dump/Restore losslessness and the SQLite handler's replies are runtime-validated (every history is dumped, restored and queried on "
-                      "both sides; SQLite reply shapes are judged by the same monitor), not yet proved.",
+                      "(handlers_source_pinned). Dump/Restore (C16Restore.lean): restoring the dump of ANY store satisfying the invariants - every store reached by insertions does - into a fresh store of the same "
+                      "capacity gives a store that answers every list of well-formed filters exactly as the original, for every map iteration order (restore_dump, restore_dump_reachable; via "
+                      "C03's find_eq_spec and C05's Inv2). Runtime-validated: the JSON-lines encoding of the dump, and the SQLite handler's replies (shapes judged by the same monitor).",
         "level_note": "Trusted: Lean kernel + standard axioms; go2lean; harness/driver; SimpleHandler's select loop and channel plumbing (validated with barrier requests).",
         "assumptions": ["for ephemeral events and for equal-created_at versions the OK verdict is not constrained by the monitor", "SQLite inserts are asynchronous: only reply shapes are judged here (content: C06)"],
     },
